@@ -1,3 +1,4 @@
+import Hcl.Proofs.AcceptedValid
 import Hcl.Model.Program
 open Rust
 
@@ -77,3 +78,42 @@ theorem C09_stage1_rejects (fl : Flags) (cls : CharClass) (o : Orders) (fixed : 
     cases he : (stmts.foldl (step1Stmt _ _) (step1Init fixed)).errors with
     | nil => exact absurd he herr
     | cons d ds => simp [he]
+
+/-! ### for every accepted program -/
+
+/-- **C09 for every accepted program**: whatever the iteration order, in an accepted program every wire has exactly
+    one driver: the value-writing actions have pairwise distinct outputs (no wire is driven twice), none of them
+    drives a register output or a constant, every wire an action reads is a register output, a constant, or the
+    output of an earlier action (nothing undriven is read), and the state-changing actions write no wire. -/
+theorem C09_accepted (fl : Flags) (cls : CharClass) (o : Orders) (stmts : List Stmt) (p : Program)
+    (ho : OrdersOK o) (hwf : StmtsWF stmts)
+    (h : Program.new fl cls o y86FixedFunctions stmts = .ok p) :
+    ∃ (pre fin : List Action) (known : List String), p.actions = pre ++ fin ∧
+      (pre.map Action.out).Nodup ∧
+      (∀ n ∈ known, n ∉ pre.map Action.out) ∧
+      (∀ a ∈ pre, ∀ r ∈ a.reads, r ∈ known ∨ r ∈ pre.map Action.out) ∧
+      (∀ a ∈ fin, a.writes = []) := by
+  obtain ⟨pre, fin, known, hsplit, hv, hfin, hsched, hknown, _⟩ := Program_new_valid fl cls o stmts p ho hwf h
+  refine ⟨pre, fin, known, hsplit, ?_, hknown, ?_, ?_⟩
+  · -- distinct outputs, from the validity of the schedule
+    have : ∀ (l : List Action) (before : List String), ValidFrom before l → (l.map Action.out).Nodup := by
+      intro l
+      induction l with
+      | nil => intro _ _; simp
+      | cons a rest ih =>
+        intro before hvl
+        simp only [List.map_cons, List.nodup_cons]
+        exact ⟨hvl.2.2.1, ih _ hvl.2.2.2.2⟩
+    exact this pre [] hv
+  · intro a ha r hr
+    rcases sched_reads known pre hsched a ha r hr with h1 | h1
+    · exact Or.inl h1
+    · right
+      simp only [writesOf, List.mem_flatMap] at h1
+      obtain ⟨b, hb, hrb⟩ := h1
+      rw [pure_writes b (validFrom_pure pre [] hv b hb)] at hrb
+      simp at hrb
+      exact List.mem_map.mpr ⟨b, hb, hrb.symm⟩
+  · intro a ha
+    have := hfin a ha
+    cases a <;> simp_all [Action.isPure, Action.writes]
